@@ -86,10 +86,11 @@ CLAIMS = {
   ref="DESIGN.md §4 C17"),
  "C18": dict(
   technique="typestate invariant inference + effect summaries compared with a specification table; field-access and call-trace rules",
-  text="ArrayBuf<N> is analysed for a symbolic capacity N: num_elements <= N is inferred and proved inductive; the abstract outcomes of "
-       "push / extend_from_slice / truncate / clear / deref (result, written index or range and value, new length, as linear facts over N, "
-       "the length and the arguments) must equal the ideal bounded vector, with no write on failure; PartialEq/Debug go through Deref only; "
-       "FromIterator pushes each item once; the Vec impl reserves (try_reserve of the right amount) before every write and returns Err untouched.",
+  text="ArrayBuf<N> is analysed for a symbolic capacity N. Its logical length is the length of the slice Deref::deref exposes (which must be "
+       "buffer[0..len]); 0 <= len <= N is inferred and proved inductive; the abstract outcomes of push / extend_from_slice / truncate / clear / "
+       "deref (result, written index or range and value, new length, as linear facts over N, len and the arguments) must equal the ideal bounded "
+       "vector, with no write on failure; PartialEq/Debug go through the view only; FromIterator writes every fetched item once at the next free "
+       "index (monitor); the Vec impl reserves (try_reserve of the right amount) before every write and returns Err untouched.",
   note="A1, A2, A3",
   ref="DESIGN.md §4 C18"),
  "C03": dict(
